@@ -11,7 +11,11 @@ from .. import core, runner
 
 THEOREMS = ["ZI.Components.C16_unregisterUtility", "ZI.Components.C16_registerUtility_events", "ZI.Components.C16_adapters", "ZI.Components.C16_subscriptions",
             "ZI.Components.cacheUnregister_listing", "ZI.Components.C16_pinned_violates",
-            "ZI.Components.reload_listings", "ZI.Components.populateCache_counts", "ZI.Components.reload_counts"]
+            "ZI.Components.reload_listings", "ZI.Components.populateCache_counts", "ZI.Components.reload_counts",
+            # over ALL histories of the eight methods, queries, re-loads and re-initialisations (ZI/Props/C16Hist.lean)
+            "ZI.Components.inv_step", "ZI.Components.inv_run", "ZI.Components.C16_queries", "ZI.Components.C16_counts",
+            "ZI.Components.C16_all_utilities", "ZI.Components.C16_probe", "ZI.Components.C16_no_TypeError",
+            "ZI.Components.mixed_hashability_breaks", "ZI.Components.exOps_guard"]
 NAMES = ["", "a"]
 UNAMES = ["", "a", "b"]     # utilities also under a third name (seen by the listing, getUtilitiesFor, getAllUtilitiesRegisteredFor, the probe)
 # required specifications: 3 = R1, 4 = R2(R1), 0 = Interface (also spelled None), 5 = implementedBy(K) with K implementing R1
@@ -429,8 +433,8 @@ KNOWN = {}
 
 def check(tier):
     chk = core.Check("C16", tier)
-    chk.obligations(THEOREMS, ["C16_listing / C16_queries / C16_counts / C16_probe / C16_events as invariants over all histories of the eight methods (evaluated by "
-                               "the oracle after every call)"])
+    chk.obligations(THEOREMS, ["histories outside the guard HashClass (an unhashable component == a hashable one: known finding "
+                               "utilities-mixed-hashability-double-subscription) are judged by the oracle only"])
     rnd = core.rng("C16")
     state = dict(vid=0)
     scripts = [gen_script(rnd, tier, state) for _ in range({"quick": 120, "thorough": 3000}[tier])]
